@@ -72,7 +72,7 @@ INVENTORY = [
      "Model/CacheControl.v (C04). NOT client input: read from the RESPONSE headers of a handler / upstream; in a build with overflow "
      "checks '4294967295d' panics (kept in the model as the checked branch, outside request_path)"),
     ("src/host.rs Collection::get_from_request / get_host", "expect(\"Ref pointed to Ref\") (repaired: chains are followed); "
-     "moved_host_collection.get_host(&hostname).unwrap()", "Model/Hosts.v choose_host V1; host_choice_never_panics (C15)"),
+     "moved_host_collection.get_host(&hostname).unwrap()", "Model/Hosts.v choose_host_uri V1; host_choice_never_panics (C15)"),
     ("src/cors.rs check_cors_request / is_part_of_origin", "allowed.host().unwrap() (asserted when the rule is added); split_once",
      "Model/Cors.v is_part_of_origin / check_cors_request are total (C13); borrowed component cors.check"),
     ("src/vary.rs VariedResponse", "responses.insert(position, ..); &self.responses[position]; first().unwrap(); get_by_request(..).unwrap_err()",
@@ -933,7 +933,7 @@ THEOREMS = [
     ("pathquery_never_panics",
      "forall (path : bytes) (query : option bytes), pq_path (pq_from path query) = Ok path /\\ exists r, pq_query (pq_from path query) = Ok r"),
     ("host_choice_never_panics",
-     "forall (ops : list Hosts.op) (c : Hosts.collection) (sni : option bytes) (hh : list bytes), Hosts.build ops = Ok c -> Hosts.choose_host Hosts.V1 c sni hh <> Panic"),
+     "forall (ops : list Hosts.op) (c : Hosts.collection) (b : bool) (sni : option bytes) (hh : list bytes) (authority : option bytes), Hosts.build ops = Ok c -> Hosts.choose_host_uri b Hosts.V1 c sni hh authority <> Panic"),
     ("limiter_never_panics",
      "forall (checked : bool) (cfg : Limiter.config) (t0 : N) (h : list Limiter.event), Limiter.fits (length h) -> Forall (fun d => exists a, d = Ok a) (Limiter.decisions checked cfg t0 h)"),
     ("conn_never_panics",
